@@ -147,6 +147,54 @@ def exhaustive_cases():
     return cases
 
 
+CP_STRINGS = ["", "a", "A", "ab", "b", "a\u00e9", "\u00e9", "\ue000", "\uffff", "\U00010000", "\U0001f600", "a\U00010000",
+              "a\uffff", "~", "\u007f"]
+BIG_INTS = [-10 ** 20, -3, 0, 5, 2 ** 53, 2 ** 53 + 1, 10 ** 20]
+
+
+def order_cases():
+    """string order by code point (incl. astral vs BMP, where UTF-16 order differs) and exact integers"""
+    cases = []
+    for r in RELS:
+        for a in CP_STRINGS:
+            for b in CP_STRINGS:
+                cases.append({"stream": "codepoint", "op": "String" + r, "default": "MD", "input": doc(a),
+                              "choices": [dict(leaf_rule("String" + r, b), Next="M0")]})
+        for a in BIG_INTS:
+            for b in BIG_INTS:
+                cases.append({"stream": "bigint", "op": "Numeric" + r, "default": "MD", "input": doc(a),
+                              "choices": [dict(leaf_rule("Numeric" + r, b), Next="M0")]})
+    return cases
+
+
+MALFORMED_RULES = [
+    {"Variable": "$.v", "IsString": 1}, {"Variable": "$.v", "IsString": "true"}, {"Variable": "$.v", "IsPresent": None},
+    {"Variable": "$.v", "NumericEquals": 5, "StringEquals": "s"}, {"Variable": "$.v"}, {"NumericEquals": 5},
+    {"Variable": "$.v", "NumericEqual": 5}, {"Variable": "$.v", "numericEquals": 5}, {"Variable": "$.v", "Equals": 5},
+    {"Variable": "$.v", "NumericEqualsPath": 5}, {"Variable": "$.v", "NumericEqualsPath": "k"},
+    {"Variable": "$.v", "StringMatchesPath": "$.k"}, {"Variable": "$.v", "IsNullPath": "$.k"},
+    {"Variable": "$.v", "And": []}, {"And": {"Variable": "$.v", "NumericEquals": 5}}, {"Not": []}, {"Or": "x"},
+    {"Variable": 5, "NumericEquals": 5}, {"Variable": None, "NumericEquals": 5}, {"Variable": "$.v[", "NumericEquals": 5},
+    {"Variable": "$..v", "NumericEquals": 5}, {"Variable": "$.*", "NumericEquals": 5}, {"Variable": "$.v", "locals": 5},
+    {"Variable": "$.v", "And": 5}, {"Variable": "$.v", "CaseInsensitiveStringEquals": "S"},
+]
+
+
+def malformed_stream(chk, eng):
+    """rules outside the model's grammar: the model says `unsupported`; the implementation's answer is
+    recorded only (the property does not speak about them) — except that the model must really refuse them"""
+    n = 0
+    for rule in MALFORMED_RULES:
+        for v in (5, "s", MISSING):
+            inp = doc(v, 5)
+            line = common.driver([model_state_line([dict(rule, Next="M0")], "MD", inp, ctx_of(inp))])[0]
+            got = eng.run([dict(rule, Next="M0")], "MD", inp)
+            n += 1
+            chk.count("malformed|" + cj([rule, inp]), True)
+            chk.dist("malformed.model_%s.impl_%s" % (line.split("\t")[0], got[0] if got[0] != "next" else got[1]))
+    chk.cov["streams"]["malformed_rules"] = n
+
+
 GLOB_ALPHA = ["a", "b", "*", "\\", "?", "[", "]", "!"]
 
 
@@ -550,6 +598,8 @@ def run(chk):
     compare_stream(chk, eng, exhaustive_cases(), "ops")
     compare_stream(chk, eng, glob_cases(chk.rng, quick), "glob")
     compare_stream(chk, eng, inputpath_cases(), "inputpath")
+    compare_stream(chk, eng, order_cases(), "orders")
+    malformed_stream(chk, eng)
     law_stream(chk, eng, quick)
     run_ts(chk, quick)
     chk.cov["rule"] = ("one-Choice machines run through StateEngine.notify: 39 operators x %d variable values (missing, null, "
